@@ -247,6 +247,7 @@ type HTTPError struct {
 	Name    string `json:"name"`
 	Status  int    `json:"status"`
 	Headers []Loc  `json:"headers,omitempty"`
+	Cookies []Loc  `json:"cookies,omitempty"`
 	Body    string `json:"body,omitempty"`
 }
 
